@@ -133,6 +133,10 @@ Error BaseBuilder::new_comment_node(Out<CommentNode*> out, const char* data, siz
         return report_error(make_error(Error::kOutOfMemory));
       }
     }
+    else {
+      // Never keep a pointer to caller's memory.
+      data = "";
+    }
   }
 
   return new_node_t<CommentNode>(out, data);
